@@ -417,6 +417,10 @@ class VN:
                         n_ = seq_len(T.dec(ka[2][0]))
                         if n_ is not None:
                             return n_
+        if e.attr == "size" and isinstance(base, T.Poly):
+            fa_ = base.single_atom()
+            if fa_ is not None and fa_[0] == "app" and fa_[1] in ("ravel", "flatten", "reshape") and fa_[2] and fa_[2][0][0] == "P":
+                return T.app("attr:size", T.dec(fa_[2][0]), real=True)          # reshaping does not change the number of elements
         if e.attr in ("shape", "ndim", "size", "dtype"):
             if e.attr == "shape" and is_tuple(base):
                 return T.app("shape", base, real=True)
@@ -426,6 +430,13 @@ class VN:
                 for _ in range(6):
                     ba_ = b_.single_atom()
                     if ba_ is not None and ba_[0] == "app" and ba_[1] == "setitem" and ba_[2] and ba_[2][0][0] == "P":
+                        b_ = T.dec(ba_[2][0])
+                        continue
+                    # cyclic shifts, and transforms without an explicit size `s`, keep the shape of their operand
+                    if e.attr == "shape" and ba_ is not None and ba_[0] == "app" and ba_[2] and ba_[2][0][0] == "P" and (
+                            ba_[1] in ("call:numpy.roll", "call:numpy.fft.fftshift", "call:numpy.fft.ifftshift") or
+                            (ba_[1] in ("call:numpy.fft.fftn", "call:numpy.fft.ifftn") and len(ba_[2]) >= 1 and
+                             all(x_[0] == "P" and (T.dec(x_).single_atom() or ("", ""))[1] in ("kw:axes", "kw:norm") for x_ in ba_[2][1:]))):
                         b_ = T.dec(ba_[2][0])
                         continue
                     break
@@ -514,6 +525,10 @@ class VN:
         if isinstance(op, ast.Add):
             return T.add(a, b)
         if isinstance(op, ast.Sub):
+            xa, xb = a.single_atom(), b.single_atom()
+            if xa is not None and xb is not None and xa[0] == "app" and xb[0] == "app" and xa[1] == "max" and xb[1] == "min" and xa[2] == xb[2] and len(xa[2]) == 2 \
+                    and all(x[0] == "P" for x in xa[2]) and xa[3]:
+                return T.abs_(T.sub(T.dec(xa[2][0]), T.dec(xa[2][1])))     # max(a, b) - min(a, b) = |a - b|
             return T.sub(a, b)
         if isinstance(op, ast.Mult):
             return T.mul(a, b)
@@ -549,14 +564,52 @@ class VN:
                 # integer identity (array sizes): (n + 1) // 2 == (n + n % 2) / 2, so "round up to even" has one spelling
                 x = T.sub(a, T.const(1))
                 return T.mul(T.const(Fr(1, 2)), T.add(x, T.app("mod", x, T.const(2), real=True)))
+            # floor((X + k*b) / b) = floor(X / b) + k for every integer k (any real X, b != 0): whole multiples of the divisor are pulled out,
+            # so `(n - b + s) // s`, `(n - b) // s + 1` and `(n + s - 1) // s` vs `(n - 1) // s + 1` have one spelling each
+            if fb is not None and fb > 0 and fb.denominator == 1:
+                ca_ = a.const()
+                if ca_[1] == 0 and ca_[0].denominator == 1:
+                    kq = ca_[0] // fb
+                    rem = ca_[0] - kq * fb
+                    rest = T.add(T.sub(a, T.Poly({frozenset(): ca_}) if ca_ != T.ZERO else T.const(0)), T.const(rem))
+                    if fb == 2 and rem == 1 and is_int_term(T.sub(rest, T.const(1))):
+                        # integer n: (n + 1) // 2 = n - n // 2, so `n - (n + 1) // 2` and `n // 2` have one spelling
+                        n_ = T.sub(rest, T.const(1))
+                        return T.add(T.sub(n_, T.app("floordiv", n_, b, real=True)), T.const(kq))
+                    if kq != 0:
+                        return T.add(T.app("floordiv", rest, b, real=True), T.const(kq))
+            if len(b.t) == 1 and not b.is_const():
+                (bm, bc), = b.t.items()
+                if bm in a.t and bc[1] == 0 and bc[0] != 0:
+                    ac = a.t[bm]
+                    if ac[1] == 0:
+                        kq = ac[0] / bc[0]
+                        if kq.denominator == 1 and kq != 0:
+                            rest = T.Poly({m_: c_ for m_, c_ in a.t.items() if m_ != bm})
+                            return T.add(self.binop(ast.FloorDiv(), rest, b, node), T.const(kq))
             return T.app("floordiv", a, b, real=True)
+        if isinstance(op, ast.RShift):
+            fb = b.as_fraction() if isinstance(b, T.Poly) else None
+            if isinstance(a, T.Poly) and fb is not None and fb.denominator == 1 and 0 <= fb <= 16:
+                return self.binop(ast.FloorDiv(), a, T.const(2 ** int(fb)), node)     # n >> k is n // 2**k
         if isinstance(op, ast.Mod):
             fa, fb = a.as_fraction(), b.as_fraction()
             if fa is not None and fb is not None and fb != 0:
                 return T.const(fa % fb)
             return T.app("mod", a, b, real=True)
         if isinstance(op, (ast.BitAnd, ast.BitOr)):
-            return T.app("and" if isinstance(op, ast.BitAnd) else "or", a, b)
+            pr = small_array_pair(a, b)
+            if pr is not None:
+                return T.app("call:numpy.array", tuple(self.binop(op, x, y, node) for x, y in zip(*pr)))
+            nm = "and" if isinstance(op, ast.BitAnd) else "or"
+            unit, zero = (TRUE, FALSE) if nm == "and" else (FALSE, TRUE)
+            if a == zero or b == zero:
+                return zero
+            if a == unit:
+                return b
+            if b == unit:
+                return a
+            return T.app(nm, a, b)
         raise Unrecognised("binary operator %s" % type(op).__name__, node)
 
     def _as_term(self, v):
@@ -632,6 +685,9 @@ class VN:
     def compare(self, op, a, b):
         """comparisons of scalar terms are canonicalised on the difference, so that
         `i < n - 1`, `i + 1 < n` and `n - 1 > i` are one condition"""
+        pr = small_array_pair(a, b) if isinstance(op, (ast.Lt, ast.Gt, ast.LtE, ast.GtE, ast.Eq, ast.NotEq)) else None
+        if pr is not None:
+            return T.app("call:numpy.array", tuple(self.compare(op, x, y) for x, y in zip(*pr)))    # elementwise on arrays of known elements
         if isinstance(a, T.Poly) and isinstance(b, T.Poly):
             fd = T.sub(b, a).as_fraction()
             if fd is not None and isinstance(op, (ast.Lt, ast.Gt, ast.LtE, ast.GtE, ast.Eq, ast.NotEq)):
@@ -654,6 +710,18 @@ class VN:
                 if repr(nd.key()) < repr(d.key()):
                     d = nd
                 return T.app("zero" if isinstance(op, ast.Eq) else "nonzero", d)
+        if isinstance(op, (ast.Eq, ast.NotEq)) and is_tuple(a) and is_tuple(b) and all(isinstance(x, T.Poly) for x in a + b):
+            # equality of two sequences of known length is the conjunction of the element equalities (and fails on different lengths)
+            if len(a) != len(b):
+                res = FALSE
+            else:
+                eqs = [self.compare(ast.Eq(), x, y) for x, y in zip(a, b)]
+                if any(x == FALSE for x in eqs):
+                    res = FALSE
+                else:
+                    eqs = [x for x in eqs if x != TRUE]
+                    res = TRUE if not eqs else (eqs[0] if len(eqs) == 1 else T.app("and", *eqs))
+            return res if isinstance(op, ast.Eq) else negate(res)
         if isinstance(op, (ast.In, ast.NotIn)) and isinstance(a, T.Poly) and is_tuple(b) and 0 < len(b) <= 8 and all(isinstance(x, T.Poly) for x in b):
             # membership in a literal collection is the disjunction of the equalities: `x in (1, 2, 3)` reads like `x == 1 or x == 2 or x == 3`
             eqs = [self.compare(ast.Eq(), a, x) for x in b]
@@ -687,7 +755,30 @@ class VN:
             return self.ev(e.body, st)
         if all(any(x == k for k in st.conds) for x in conjuncts(negate(c))):
             return self.ev(e.orelse, st)
-        return T.app("ifexp", c, self._as_term(self.ev(e.body, st)), self._as_term(self.ev(e.orelse, st)))
+        bt, et = self._as_term(self.ev(e.body, st)), self._as_term(self.ev(e.orelse, st))
+        fa = c.single_atom() if isinstance(c, T.Poly) else None
+        if fa is not None and fa[0] == "app" and fa[1] in ("pos", "nonneg") and len(fa[2]) == 1 and isinstance(bt, T.Poly) and isinstance(et, T.Poly):
+            # `b if b > e else e` is max(b, e); `b if b < e else e` is min(b, e) (either strictness: the branches agree where b == e)
+            d = T.dec(fa[2][0])
+            if T.sub(bt, et) == d:
+                return T.app("max", bt, et)
+            if T.sub(et, bt) == d:
+                return T.app("min", bt, et)
+            # floor division by a positive constant is monotone: `x // k - y // k if x > y else 0` is max(x // k - y // k, 0)
+            df = T.sub(bt, et)
+            if len(df.t) == 2:
+                fl = {}
+                for m_, c_ in df.t.items():
+                    if len(m_) == 1 and c_[1] == 0 and abs(c_[0]) == 1:
+                        (a_, e_), = m_
+                        if e_ == 1 and a_[0] == "app" and a_[1] == "floordiv":
+                            k_ = T.dec(a_[2][1])
+                            kf = k_.as_fraction() if isinstance(k_, T.Poly) else None
+                            if kf is not None and kf > 0:
+                                fl[c_[0]] = (T.dec(a_[2][0]), kf)
+                if len(fl) == 2 and fl[1][1] == fl[-1][1] and T.sub(fl[1][0], fl[-1][0]) == d:
+                    return T.app("max", bt, et)
+        return T.app("ifexp", c, bt, et)
 
     def ev_Tuple(self, e, st):
         out = []
@@ -761,6 +852,12 @@ class VN:
                         for a_, e_ in rest:
                             out_ = T.mul(out_, T.Poly({frozenset({(a_, e_)}): T.ONE}))
                         return T.mul(out_, mirrored)
+        if isinstance(base, T.Poly) and isinstance(idx, T.Poly):
+            fi = idx.as_fraction()
+            if fi is not None and fi < 0 and fi.denominator == 1:
+                n_ = st.env.get("#len:" + repr(base.key()))
+                if n_ is not None and n_.as_fraction() + fi >= 0:
+                    return T.app("getitem", base, T.const(n_.as_fraction() + fi))   # x[-1] of a sequence unpacked into n names is x[n - 1]
         return T.app("getitem", self._as_term(base), idx)
 
     def _int(self, node, st, default):
@@ -940,6 +1037,17 @@ class VN:
             if r is not None:
                 return r
         f = e.func
+        if isinstance(f, ast.Name) and f.id == "map" and len(e.args) >= 2 and not e.keywords and isinstance(e.args[0], ast.Lambda) \
+                and len(e.args[0].args.args) == len(e.args) - 1 and not e.args[0].args.vararg and not e.args[0].args.defaults:
+            # map(lambda a, b: E, xs, ys) is [E for a, b in zip(xs, ys)]
+            lam = e.args[0]
+            names = [a_.arg for a_ in lam.args.args]
+            tgt = ast.Tuple(elts=[ast.Name(id=n_, ctx=ast.Store()) for n_ in names], ctx=ast.Store()) if len(names) > 1 else ast.Name(id=names[0], ctx=ast.Store())
+            it = ast.Call(func=ast.Name(id="zip", ctx=ast.Load()), args=list(e.args[1:]), keywords=[]) if len(names) > 1 else e.args[1]
+            comp = ast.ListComp(elt=lam.body, generators=[ast.comprehension(target=tgt, iter=it, ifs=[], is_async=0)])
+            ast.copy_location(comp, e)
+            ast.fix_missing_locations(comp)
+            return self.ev(comp, st)
         if isinstance(f, ast.Name) and f.id in ("getattr", "setattr") and not e.keywords and len(e.args) == (2 if f.id == "getattr" else 3):
             # getattr(obj, "name") / setattr(obj, "name", v) with a name that is a known string is obj.name / obj.name = v
             nm = self._str_const(self.ev(e.args[1], st))
@@ -1354,6 +1462,29 @@ class VN:
             return T.app("int", a0, real=True)
         if short == "float" and isP:
             return a0
+        if short in ("fftshift", "ifftshift") and full.startswith("numpy.fft") and len(args) == 1 and isP and set(kw) == {"axes"} and kw["axes"] != NONE \
+                and (is_tuple(kw["axes"]) or (isinstance(kw["axes"], P) and (is_seq(kw["axes"]) or T.show(kw["axes"], 40).startswith("fn:sigpy.util._normalize_axes(")))):
+            # fftshift(x, axes) rolls every listed axis forwards by half its length (ifftshift: backwards by the same amount)
+            src_ = "[__x.shape[__a] // 2 for __a in __ax]" if short == "fftshift" else "[-(__x.shape[__a] // 2) for __a in __ax]"
+            sh_ = self.ev(ast.parse(src_, mode="eval").body, State({"__x": a0, "__ax": kw["axes"]}))
+            args = [a0, sh_]
+            kw = {"axis": kw["axes"]}
+            short, full = "roll", "numpy.roll"
+        if short == "roll" and full.startswith("numpy") and len(args) >= 2 and isP:
+            ax = args[2] if len(args) >= 3 else kw.get("axis")
+            sh = args[1]
+            if is_tuple(sh) and is_tuple(ax) and len(sh) == len(ax) and set(kw) <= {"axis"}:
+                out = a0      # rolling along several axes at once is rolling along them one after the other
+                for s_, a_ in zip(sh, ax):
+                    out = T.app("call:numpy.roll", self._as_term(out), self._as_term(s_), T.app("kw:axis", self._as_term(a_)))
+                return out
+            if ax is not None and not is_tuple(sh) and not is_tuple(ax):
+                return T.app("call:numpy.roll", a0, self._as_term(sh), T.app("kw:axis", self._as_term(ax)))      # positional axis = keyword axis
+        if short == "arange" and full.startswith("numpy") and len(args) == 2 and all(isinstance(x, P) for x in args) and not (set(kw) - {"dtype"}):
+            # arange(a, b) is arange(b - a) + a  (unit step): one spelling for `arange(n) + 1` and `arange(1, n + 1)`
+            n_ = T.sub(args[1], args[0])
+            base = T.app("call:numpy.arange", n_, *[T.app("kw:" + kk, self._as_term(vv)) for kk, vv in sorted(kw.items())], real=True)
+            return T.add(base, args[0])
         if short in ("multiply",) and len(args) == 2 and all(isinstance(x, P) for x in args):
             return T.mul(args[0], args[1])
         if short in ("add", "subtract", "divide", "true_divide") and len(args) == 2 and all(isinstance(x, P) for x in args) and not kw \
@@ -1397,6 +1528,10 @@ class VN:
         if short == "len" and args:
             if is_tuple(a0):
                 return T.const(len(a0))
+            if isP:
+                fa_ = a0.single_atom()
+                if fa_ is not None and fa_[0] == "app" and fa_[1] in ("ravel", "flatten") and len(fa_[2]) == 1:
+                    return T.app("attr:size", T.dec(fa_[2][0]), real=True)      # the length of a flattened array is the number of its elements
             sl_ = seq_len(a0)
             if sl_ is not None:
                 return sl_
@@ -1436,7 +1571,7 @@ class VN:
             return tuple((T.const(i), x) for i, x in enumerate(a0))
         if short == "reversed" and is_tuple(a0):
             return tuple(reversed(a0))
-        if short == "accumulate" and full.startswith("itertools") and is_tuple(a0) and len(args) == 1 and not kw and all(isinstance(x, T.Poly) for x in a0):
+        if short == "accumulate" and (full.startswith("itertools") or full in ("accumulate", "")) and is_tuple(a0) and len(args) == 1 and not kw and all(isinstance(x, T.Poly) for x in a0):
             acc, run_ = [], None
             for x in a0:          # running totals of a sequence of known length
                 run_ = x if run_ is None else T.add(run_, x)
@@ -1452,6 +1587,9 @@ class VN:
             if ca is not None and ca[0] == "app" and ca[1] == "comp" and len(ca[2]) == 2 and isinstance(T.dec(ca[2][0]), P):
                 body = negate(T.dec(ca[2][0]))
                 return T.app("not", T.app("call:any", T.app("comp", body, T.dec(ca[2][1]))))
+        if short in ("any", "all") and len(args) == 1 and not kw and isP and small_array(a0) is not None:
+            a0 = small_array(a0)            # np.any / np.all / any / all over an array of known elements
+            full = short
         if short in ("any", "all") and is_tuple(a0) and len(args) == 1 and not kw and all(isinstance(x, T.Poly) for x in a0) \
                 and not full.startswith("numpy"):
             is_and = short == "all"
@@ -1469,6 +1607,9 @@ class VN:
             ints = [x.as_fraction() if isinstance(x, T.Poly) else None for x in args]
             if args and all(i is not None and i.denominator == 1 for i in ints) and len(range(*[int(i) for i in ints])) <= 16:
                 return tuple(T.const(i) for i in range(*[int(i) for i in ints]))
+            if len(args) == 3 and ints[2] == -1 and all(isinstance(x, T.Poly) for x in args):
+                # range(a, b, -1) lists -j for j in range(-a, -b): one spelling for descending ranges
+                return T.app("comp", T.neg(T.sym("@0", real=True)), T.app("range", T.neg(args[0]), T.neg(args[1]), real=True))
             return T.app("range", *[self._as_term(x) for x in args], real=True)
         if short == "issubdtype" and len(args) == 2 and isinstance(a0, T.Poly):
             # the dtype of x.astype(np.complex64 / np.complex128) is a complex floating type
@@ -1579,8 +1720,11 @@ class VN:
                 for t, v in zip(tgt.elts, val):
                     self.assign(t, v, st, node)
             else:
+                vt = self._as_term(val)
+                if isinstance(vt, T.Poly) and not any(isinstance(t, ast.Starred) for t in tgt.elts):
+                    st.env["#len:" + repr(vt.key())] = T.const(len(tgt.elts))     # the unpacking succeeded: the sequence has exactly this length
                 for i, t in enumerate(tgt.elts):
-                    self.assign(t, T.app("getitem", self._as_term(val), T.const(i)), st, node)
+                    self.assign(t, T.app("getitem", vt, T.const(i)), st, node)
             return
         if isinstance(tgt, ast.Subscript):
             k = self.key_of(tgt.value)
@@ -1595,6 +1739,16 @@ class VN:
                     st.env[k] = tuple(lst)
                     return
             idx = self._as_term(expand_ellipsis(self.ev(tgt.slice, st), old))
+            oa_ = old.single_atom() if isinstance(old, T.Poly) else None
+            ia_ = idx.single_atom() if isinstance(idx, T.Poly) else None
+            if oa_ is not None and oa_[0] == "app" and oa_[1] == "repeat" and len(oa_[2]) == 2 and ia_ is not None and ia_[0] == "app" and ia_[1] == "mod" \
+                    and ia_[2][1] == oa_[2][1] and oa_[2][0][0] == "T" and len(oa_[2][0][1]) == 1:
+                # ([e] * n)[k % n] = v is [e] * (k % n) + [v] + [e] * (n - k % n - 1): the index is in range by construction
+                unit, n_ = T.dec(oa_[2][0]), T.dec(oa_[2][1])
+                new_ = concat(concat(self.binop(ast.Mult(), unit, idx, node), (val,)),
+                              self.binop(ast.Mult(), unit, T.sub(T.sub(n_, idx), T.const(1)), node))
+                st.update_in_place(k, new_)
+                return
             st.update_in_place(k, T.app("setitem", self._as_term(old), idx, self._as_term(val)))
             st.events.append(("setitem", k, idx, val, node))
             return
@@ -1945,6 +2099,60 @@ def iter_once_while(vn, s, st):
             o.events.append((o.status, None, s))
             o.status = "live"
     return outs
+
+
+INT_APPS = {"attr:ndim", "attr:size", "len", "floordiv", "ceil", "floor", "int", "prod"}
+
+
+def is_int_term(p, depth=0):
+    """provably integer-valued: integer combinations of sizes (x.shape[k], len, ndim, size), ceil/floor/int and floor divisions / max / min of such"""
+    if not isinstance(p, T.Poly) or depth > 6:
+        return False
+    for m, c in p.t.items():
+        if c[1] != 0 or c[0].denominator != 1:
+            return False
+        for a, e in m:
+            if e.denominator != 1 or e < 0 or a[0] != "app":
+                return False
+            if a[1] in ("attr:ndim", "attr:size", "len", "ceil", "floor", "int"):
+                continue
+            args = [T.dec(x) for x in a[2]]
+            if a[1] == "getitem" and len(args) == 2 and isinstance(args[0], T.Poly) and isinstance(args[1], T.Poly):
+                ba = args[0].single_atom()
+                ia = args[1].single_atom()
+                if ba is not None and ba[0] == "app" and ba[1] == "attr:shape" and not (ia is not None and ia[0] == "app" and ia[1] == "slice"):
+                    continue
+                return False
+            if a[1] in ("floordiv", "mod", "max", "min") and all(is_int_term(x, depth + 1) for x in args):
+                continue
+            return False
+    return True
+
+
+def small_array(v):
+    """the elements of np.array((e0, .., ek)) built from a tuple of known scalar terms (k <= 8), else None"""
+    a = v.single_atom() if isinstance(v, T.Poly) else None
+    if a is not None and a[0] == "app" and a[1] in ("call:numpy.array", "call:numpy.asarray") and len(a[2]) == 1 and a[2][0][0] == "T":
+        t = T.dec(a[2][0])
+        if 0 < len(t) <= 8 and all(isinstance(x, T.Poly) for x in t):
+            return t
+    return None
+
+
+def small_array_pair(a, b):
+    """operands of an elementwise operation on small arrays (a known constant broadcasts); None when the rule does not apply"""
+    sa, sb = small_array(a), small_array(b)
+    if sa is None and sb is None:
+        return None
+    if sa is None:
+        if not (isinstance(a, T.Poly) and a.as_fraction() is not None):
+            return None
+        sa = (a,) * len(sb)
+    if sb is None:
+        if not (isinstance(b, T.Poly) and b.as_fraction() is not None):
+            return None
+        sb = (b,) * len(sa)
+    return (sa, sb) if len(sa) == len(sb) else None
 
 
 def seq_len(v):
